@@ -20,7 +20,7 @@ def main():
     for mp in sorted(glob.glob(os.path.join(VERIF, "seeded", "*", "meta.json"))):
         k = os.path.basename(os.path.dirname(mp)); m = json.load(open(mp))
         if ids and k not in ids: continue
-        if not m.get("confirmed"): continue
+        if not m.get("confirmed") or m.get("out_of_scope"): continue
         tier = "thorough" if any(c.endswith("/thorough") and v["detected"] for c, v in m["checks"].items()) and not any(c.endswith("/quick") and v["detected"] for c, v in m["checks"].items()) else "quick"
         d = tempfile.mkdtemp(prefix="selftest.", dir="/tmp")
         try:
